@@ -47,4 +47,21 @@ def generate(repo, ws, write_if_changed):
     emit("syncer_c24.rs", slice_file(repo, "node/src/syncer.rs", [
         dict(kind="fn", name="calculate_range_to_fetch"),
     ]))
+    srv = "node/src/p2p/header_ex/server.rs"
+    utl = "node/src/p2p/header_ex/utils.rs"
+    emit("server_c29.rs",
+         slice_file(repo, srv, [
+             dict(kind="const", name="MAX_HEADERS_AMOUNT_RESPONSE"),
+             dict(kind="struct", name="HeaderExServerHandler"),
+             dict(kind="trait", name="ResponseSender"),
+             dict(kind="impl", impl=r"impl<S, R> HeaderExServerHandler<S, R>"),
+             dict(kind="fn", name="parse_request"),
+         ]) + slice_file(repo, utl, [
+             dict(kind="trait", name="HeaderRequestExt"),
+             dict(kind="impl", impl=r"impl HeaderRequestExt for HeaderRequest"),
+             dict(kind="trait", name="HeaderResponseExt"),
+             dict(kind="impl", impl=r"impl HeaderResponseExt for HeaderResponse"),
+             dict(kind="trait", name="ExtendedHeaderExt"),
+             dict(kind="impl", impl=r"impl ExtendedHeaderExt for ExtendedHeader"),
+         ]))
     return out
